@@ -15,6 +15,7 @@ VALUES = {'i3': 3, 'f15': 1.5, 'good': 'good', 'i7': 7, 'i5': 5, 'none': None}
 RVALUES = {3: 'i3', 1.5: 'f15', 'good': 'good', 7: 'i7', 5: 'i5'}
 FOREIGN = {
     'valid': ('foreign_valid.csv', b'cluster_id,foreignfield\n0,5\n2,7\n'),
+    'multi': ('foreign_multi.tsv', b'cluster_id\tfa\tfb\n0\t\t5\n2\t7\t\n'),
     'empty': ('foreign_empty.csv', b''),
     'garbage': ('foreign_garbage.tsv', b'\x00\xff\xfe,,\n"unterminated\n1,2,3\n\t\t\t'),
     'headeronly': ('foreign_header.tsv', b'cluster_id\tfoo\n'),
@@ -192,8 +193,8 @@ def random_trace(ctx, d, rng, k, rid0, length):
 
 def run(ctx):
     ctx.rule = ('S->C: every history of 4 operations ending in a reload over {save_spike_clusters(2 reassignments), '
-                'save_metadata(2 fields x 4 mappings incl. None entries and an all-None mapping), write one of 6 '
-                'foreign TSV/CSV files (valid, empty, binary garbage, header only, short row, cluster_info), export the '
+                'save_metadata(2 fields x 4 mappings incl. None entries and an all-None mapping), write one of 7 '
+                'foreign TSV/CSV files (valid, two value columns with empty cells, empty, binary garbage, header only, short row, cluster_info), export the '
                 'waveform subset, close, reload} emitted by TLC (~6k), plus TLC-simulated histories of 12 operations, '
                 'replayed on a generated dataset with raw data; every reload is compared with the specification '
                 '(assignment, metadata dictionary, subset store, templates / times unchanged, store waveforms = raw '
